@@ -50,12 +50,60 @@ fn one(r: &mut Report, rt: &ConjureRuntime, v: i128, s: &Script) {
     judge(r, "decode_serializable_response(async)", v, s, vcommon::catch(|| e(block_on(p::async_decode_serializable_response::<SafeLong, _>(resp(ScriptStream::new(s)))))));
 }
 
+/// the parameter decoders generated services use: required, optional, sequence; query, path and
+/// header. A present value is either this number or an error - never absent, never another one
+fn params(r: &mut Report, rt: &ConjureRuntime, v: i128) {
+    use conjure_http::private::{header_param, parse_query_params, path_param, query_param};
+    use conjure_http::server::conjure::{FromPlainDecoder, FromPlainOptionDecoder, FromPlainSeqDecoder};
+    use conjure_http::PathParams;
+    r.states += 1;
+    let text = v.to_string();
+    let in_range = v.abs() <= MAX;
+    let mut req = http::Request::new(());
+    *req.uri_mut() = format!("/a/{}?k={}&l=1&l={}", text, text, text).parse().unwrap();
+    req.headers_mut().insert("x-n", HeaderValue::from_str(&text).unwrap());
+    let mut pp = PathParams::new();
+    pp.insert("p", text.clone());
+    req.extensions_mut().insert(pp);
+    let (parts, _) = req.into_parts();
+    let qp = parse_query_params(&parts);
+    // outcome: Ok(values) / Err
+    let e = |x: Result<Vec<SafeLong>, conjure_error::Error>| x.map(|v| v.iter().map(|s| **s as i128).collect::<Vec<_>>()).map_err(|e| e.cause().to_string());
+    let runs: Vec<(&str, Result<Result<Vec<i128>, String>, String>, Vec<i128>)> = vec![
+        ("query", vcommon::catch(|| e(query_param::<SafeLong, FromPlainDecoder>(rt, &qp, "k", "k").map(|x| vec![x]))), vec![v]),
+        ("query-optional", vcommon::catch(|| e(query_param::<Option<SafeLong>, FromPlainOptionDecoder>(rt, &qp, "k", "k").map(|x| x.into_iter().collect()))), vec![v]),
+        ("query-list", vcommon::catch(|| e(query_param::<Vec<SafeLong>, FromPlainSeqDecoder<SafeLong>>(rt, &qp, "l", "l"))), vec![1, v]),
+        ("path", vcommon::catch(|| e(path_param::<SafeLong, FromPlainDecoder>(rt, &parts, "p", "p").map(|x| vec![x]))), vec![v]),
+        ("path-optional", vcommon::catch(|| e(path_param::<Option<SafeLong>, FromPlainOptionDecoder>(rt, &parts, "p", "p").map(|x| x.into_iter().collect()))), vec![v]),
+        ("header", vcommon::catch(|| e(header_param::<SafeLong, FromPlainDecoder>(rt, &parts, "x-n", "n").map(|x| vec![x]))), vec![v]),
+        ("header-optional", vcommon::catch(|| e(header_param::<Option<SafeLong>, FromPlainOptionDecoder>(rt, &parts, "x-n", "n").map(|x| x.into_iter().collect()))), vec![v]),
+    ];
+    for (route, got, want) in runs {
+        r.evaluations += 1;
+        r.transitions += 1;
+        let case = json!({"part": "http-param", "value": text, "route": route});
+        match got {
+            Err(p) => r.violation(format!("C15|http-param|{}|panic", route), format!("{} panicked on {}: {}", route, v, p), case),
+            Ok(Ok(x)) if in_range && x == want => r.outcome("http-param:in-range-value-arrives"),
+            Ok(Ok(x)) if in_range => r.violation(format!("C15|http-param|{}|value-altered", route), format!("{}: {} arrived as {:?}", route, v, x), case),
+            Ok(Ok(x)) => r.violation(format!("C15|http-param|{}|out-of-range-not-refused", route), format!("{}: out-of-range {} was not refused: the handler would see {:?}", route, v, x), case),
+            Ok(Err(e)) if in_range => r.violation(format!("C15|http-param|{}|in-range-rejected", route), format!("{}: in-range {} rejected: {}", route, v, e), case),
+            Ok(Err(_)) => r.outcome("http-param:out-of-range-rejected"),
+        }
+    }
+}
+
 pub fn run(args: &Args) -> Report {
     let mut report = Report::new("C15", "exploration");
     let rt = ConjureRuntime::new();
     if let Some(path) = &args.replay {
         let v = vcommon::load_replay(path);
         let c = &v["case"];
+        if c["part"] == "http-param" {
+            params(&mut report, &rt, c["value"].as_str().unwrap().parse().unwrap());
+            report.exhaustive = false;
+            return report;
+        }
         let s: Script = c["script"]
             .as_array()
             .unwrap()
@@ -79,6 +127,7 @@ pub fn run(args: &Args) -> Report {
     for c in centres {
         for d in -2i128..=2 {
             let v = c + d;
+            params(&mut report, &rt, v);
             let text = v.to_string();
             for (s, _) in script::explore(text.as_bytes(), k, true, true) {
                 if script::has_err(&s) {
